@@ -119,6 +119,8 @@ def gen_case(rng: random.Random, search: bool):
         targets = []
         for _ in range(nt):
             t = {"deployment": rng.choice(dep_names), "locations": rng.randint(1, 99)}
+            if rng.random() < 0.06:        # deprecated spellings still accepted by get_binding_config
+                t = {"model": t["deployment"], "resources": t["locations"]}
             if rng.random() < (0.97 if kind == "port" else 0.3):
                 t["workdir"] = rng.choice(WORKDIRS)
             if rng.random() < 0.2:
@@ -176,6 +178,14 @@ CORPUS = [
 # ------------------------------------------------------------------------------------------------
 # the property's own oracle (strings and dicts only)
 # ------------------------------------------------------------------------------------------------
+def tdep(t):
+    return t["deployment"] if "deployment" in t else t["model"]
+
+
+def tloc(t):
+    return t["locations"] if "locations" in t else t.get("resources", 1)
+
+
 def wraps_name(d):
     w = d.get("wraps")
     return None if w is None else (w if isinstance(w, str) else w["deployment"])
@@ -199,7 +209,7 @@ def spec_workdir(deps, target):
     own = target.get("workdir")
     if own:
         return own
-    cur = target["deployment"]
+    cur = tdep(target)
     inh = None
     for _ in range(len(deps) + 1):
         d = deps[cur]
@@ -212,7 +222,7 @@ def spec_workdir(deps, target):
         cur = w
     if inh:
         return inh
-    return "<localtmp>/streamflow" if deps[target["deployment"]]["type"] == "local" else "/tmp/streamflow"
+    return "<localtmp>/streamflow" if deps[tdep(target)]["type"] == "local" else "/tmp/streamflow"
 
 
 def spec_binding(bindings, kind, qparts):
@@ -316,7 +326,7 @@ class C28(Property):
         for b in bindings:
             kind = "step" if "step" in b else "port"
             ts = b["target"] if isinstance(b["target"], list) else [b["target"]]
-            tl = ";".join(f"{hx(t['deployment'])}:{o(t.get('workdir'))}:{t.get('locations', 1)}" for t in ts) or "~"
+            tl = ";".join(f"{hx(tdep(t))}:{o(t.get('workdir'))}:{tloc(t)}" for t in ts) or "~"
             q(f"bind {kind[0]} {'L' if isinstance(b['target'], list) else 'D'} {pp(parts_of(b[kind]))} {tl} "
               f"{pp(b.get('filters', []))}", "ok", "bind")
         # ---- real constructor ----
@@ -356,10 +366,10 @@ class C28(Property):
                 q(f"q {kind[0]} {pp(qparts)}", real, f"get_binding_config({path!r},{kind!r})")
                 # raw propagate / get (the latter sees what set_targets materialised)
                 cfg = wc.propagate(PurePosixPath(path), kind)
-                q(f"prop {kind[0]} {pp(qparts)}", "~" if cfg is None else (",".join(str(t.get("locations", 1)) for t in cfg["targets"]) or "[]"),
+                q(f"prop {kind[0]} {pp(qparts)}", "~" if cfg is None else (",".join(str(tloc(t)) for t in cfg["targets"]) or "[]"),
                   f"propagate({path!r},{kind!r})")
                 g = wc.get(PurePosixPath(path), kind)
-                q(f"get {kind[0]} {pp(qparts)}", "~" if g is None else (",".join(str(t.get("locations", 1)) for t in g["targets"]) or "[]"),
+                q(f"get {kind[0]} {pp(qparts)}", "~" if g is None else (",".join(str(tloc(t)) for t in g["targets"]) or "[]"),
                   f"get({path!r},{kind!r})")
                 ctx.count("query:" + kind)
                 # oracle: nearest bound ancestor, declared order, workdir inheritance
@@ -368,7 +378,7 @@ class C28(Property):
                     want = [("__LOCAL__", "<localtmp>/streamflow", 1)]
                 else:
                     ts = sb["target"] if isinstance(sb["target"], list) else [sb["target"]]
-                    want = [(t["deployment"], spec_workdir(deps, t), t.get("locations", 1)) for t in ts]
+                    want = [(tdep(t), spec_workdir(deps, t), tloc(t)) for t in ts]
                 if rl is None:
                     ctx.fail("binding:raises", f"get_binding_config({path!r},{kind!r}) -> {real}", {"case": case, "query": [kind, path]})
                 elif [(a, c) for a, _, c in rl] != [(a, c) for a, _, c in want]:
